@@ -849,3 +849,94 @@ Proof.
     [|exact Hf1|exact Hf2].
   intros a b c H1 H2. congruence.
 Qed.
+
+(** ** a concrete program on which every hypothesis holds: [a::Foo<T> { x: T, y: Box<Vec<T>> }]
+    (one compact-attribute field [n: u32]) instantiated at [u16] and at [bool] *)
+Definition ex5_defs : list sdef :=
+  [mk_sdef ["a"; "Foo"] [("T", false); ("U", true)]
+           (SBStruct [mk_sfield (Some "x") (SParam 0) false true;
+                      mk_sfield (Some "y") (SBox (SVec (SParam 0))) false true;
+                      mk_sfield (Some "n") (SPrimT PU32) true true])].
+Definition ex5_fld (n : string) (ty : N) (tn : string) : field := mk_field (Some n) ty (Some tn) [].
+Definition ex5_foo (a v c : N) : ty :=
+  mk_ty ["a"; "Foo"] [mk_tparam "T" (Some a); mk_tparam "U" None]
+        (TDComposite [ex5_fld "x" a "T"; ex5_fld "y" v "Box<Vec<T>>"; ex5_fld "n" c "u32"]) [].
+Definition ex5_reg : registry :=
+  [(0, ex5_foo 1 2 3); (1, mk_ty [] [] (TDPrimitive PU16) []); (2, mk_ty [] [] (TDSequence 1) []);
+   (3, mk_ty [] [] (TDCompact 4) []); (4, mk_ty [] [] (TDPrimitive PU32) []);
+   (5, ex5_foo 6 7 3); (6, mk_ty [] [] (TDPrimitive PBool) []); (7, mk_ty [] [] (TDSequence 6) [])]%N.
+Definition ex5_labels : list (option src) :=
+  [Some (SApp 0 [SPrimT PU16; SPrimT PStr]); Some (SPrimT PU16); Some (SVec (SPrimT PU16));
+   Some (SCompactT (SPrimT PU32)); Some (SPrimT PU32);
+   Some (SApp 0 [SPrimT PBool; SPrimT PStr]); Some (SPrimT PBool); Some (SVec (SPrimT PBool))].
+Definition ex5_L : N -> option src := label_at ex5_labels.
+Definition ex5_s : settings :=
+  mk_settings "root" false dreg_empty [] None None (Some [":"; ":"; "codec"; ":"; ":"; "Compact"]) true AStd.
+
+Lemma ex5_registry_ofb : registry_ofb ex5_defs ex5_labels ex5_reg = true.
+Proof. vm_compute. reflexivity. Qed.
+
+Lemma ex5_RegistryOf : RegistryOf ex5_defs ex5_L ex5_reg.
+Proof.
+  split; [|split].
+  - intros id c H. unfold ex5_L, label_at in H.
+    destruct (N.to_nat id) as [|[|[|[|[|[|[|[|n]]]]]]]] eqn:E;
+      apply (f_equal N.of_nat) in E; rewrite N2Nat.id in E; subst id;
+      cbn in H; try discriminate; try (destruct n; discriminate H); injection H as Hc; subst c;
+      (eexists; split; [reflexivity|]).
+    + exists (mk_sdef ["a"; "Foo"] [("T", false); ("U", true)]
+           (SBStruct [mk_sfield (Some "x") (SParam 0) false true;
+                      mk_sfield (Some "y") (SBox (SVec (SParam 0))) false true;
+                      mk_sfield (Some "n") (SPrimT PU32) true true])).
+      repeat split.
+      * repeat constructor. exists 1%N. split; reflexivity.
+      * eexists. split; [reflexivity|]. repeat constructor.
+    + repeat split.
+    + exists 1%N. repeat split.
+    + exists 4%N. repeat split.
+    + repeat split.
+    + exists (mk_sdef ["a"; "Foo"] [("T", false); ("U", true)]
+           (SBStruct [mk_sfield (Some "x") (SParam 0) false true;
+                      mk_sfield (Some "y") (SBox (SVec (SParam 0))) false true;
+                      mk_sfield (Some "n") (SPrimT PU32) true true])).
+      repeat split.
+      * repeat constructor. exists 6%N. split; reflexivity.
+      * eexists. split; [reflexivity|]. repeat constructor.
+    + repeat split.
+    + exists 6%N. repeat split.
+  - intros id t H H0. exfalso. unfold ex5_L, label_at in H0. unfold resolve in H.
+    destruct (N.to_nat id) as [|[|[|[|[|[|[|[|n]]]]]]]]; cbn in H, H0; try discriminate.
+    destruct n; discriminate.
+  - intros i j c Hi Hj. unfold ex5_L, label_at in Hi, Hj. apply N2Nat.inj.
+    destruct (N.to_nat i) as [|[|[|[|[|[|[|[|n]]]]]]]]; cbn in Hi; try (destruct n; discriminate Hi);
+      destruct (N.to_nat j) as [|[|[|[|[|[|[|[|m]]]]]]]]; cbn in Hj; try (destruct m; discriminate Hj);
+      congruence.
+Qed.
+
+Definition ex5_sd : sdef := nth 0 ex5_defs (mk_sdef [] [] (SBStruct [])).
+Definition ex5_otp (_ : bool) : tpath := TPrim PBool.
+
+Lemma ex5_hypotheses :
+  (forall sd, In sd ex5_defs -> def_okb ex5_s sd = true) /\
+  nth_error ex5_defs 0 = Some ex5_sd /\
+  forallb field_fragment (def_sfields ex5_sd) = true /\ box_names_okb ex5_defs ex5_sd = true /\
+  instantiation_cf ex5_defs ex5_sd [SPrimT PU16; SPrimT PStr] = true /\
+  instantiation_cf ex5_defs ex5_sd [SPrimT PBool; SPrimT PStr] = true /\
+  compact_fields_okb ex5_defs ex5_sd [SPrimT PU16; SPrimT PStr] = true /\
+  compact_fields_okb ex5_defs ex5_sd [SPrimT PBool; SPrimT PStr] = true /\
+  (exists ir, create_type_ir ex5_reg ex5_s (ex5_foo 1 2 3) flat0 = Ok (Some ir) /\
+              map erase_fi (kind_fields (ti_kind ir)) = map (normal_field ex5_defs ex5_s ex5_otp) (def_sfields ex5_sd) /\
+              (* the reading as parsed types: the source field types *)
+              map (fun f => let p := tpath_pty ["std"] (fi_path f) in
+                            if fi_boxed f then abs_p (["std"] ++ ["boxed"; "Box"]) [p] else p)
+                  (kind_fields (ti_kind ir)) =
+              map (field_pty ex5_defs "root" ["std"] (["codec"; "Compact"], true) ([], false) (fun _ => PBad))
+                  (def_sfields ex5_sd)) /\
+  (exists ir, create_type_ir ex5_reg ex5_s (ex5_foo 6 7 3) flat0 = Ok (Some ir)).
+Proof.
+  split.
+  { intros sd [<-|[]]. vm_compute. reflexivity. }
+  repeat split; try (vm_compute; reflexivity).
+  - eexists. split; [vm_compute; reflexivity|]. split; vm_compute; reflexivity.
+  - eexists. vm_compute. reflexivity.
+Qed.
